@@ -53,6 +53,8 @@ def normalise_elem(e, an):
     for s, k in e.t:
         s2 = re.sub(r"\(\*_\d+@Some\.0(\.\d+)?\)", "ELEM", s)
         s2 = re.sub(r"\(\*_2\)", "ELEM", s2)
+        if an.b.kind != "Closure":
+            s2 = re.sub(r"\(\*_1\)", "ELEM", s2)          # a fn item used as the mapped function takes the element as _1
         s2 = re.sub(r"_\d+@Some\.0(\.\d+)?", "ELEM", s2)
         d[s2] = d.get(s2, 0) + k
     return Lin(d, e.c)
